@@ -440,10 +440,11 @@ structure Cfg where
   saveAfterEveryStepRequest : Bool   -- wave 3: see `stepReq`
   restoreKeepsClock : Bool           -- wave 6: see `setState`
   compressIsPure : Bool              -- wave 8: see `saveSeq`
+  loadInstallsStored : Bool          -- wave 9: see `loadStateI`
 deriving DecidableEq, Repr
 
 def Cfg.good (c : Cfg) : Bool :=
-  c.decoderResolvesRefs && c.saveAfterEveryStepRequest && c.restoreKeepsClock && c.compressIsPure
+  c.decoderResolvesRefs && c.saveAfterEveryStepRequest && c.restoreKeepsClock && c.compressIsPure && c.loadInstallsStored
 
 def settingsJ (ident : Nat → Nat) : Stored → J
   | .plain s => encode (logPV ident s.settingsLog)
@@ -496,6 +497,15 @@ def stepReq (c : Cfg) (st : IState) : Req → IState
       else { st with session := some s' }
 
 def runReqs (c : Cfg) (reqs : List Req) : IState := reqs.foldl (stepReq c) IState.init
+
+/-- wave 9: `POST /load-state` (and the load at start-up) for an instance whose state is stored: `reconstruct_instance` builds a
+new bptk from the stored state and puts it in the instance's place — whatever the instance holds in memory at that moment
+(its session may have been ended or begun anew since the save; neither writes the file).  Mechanism fact `loadInstallsStored`.
+The defective variant skips a stored state whose instance is alive: the load answers 200 and the instance keeps what it has. -/
+def loadStateI (c : Cfg) (st : IState) : IState :=
+  match st.file with
+  | none => st
+  | some f => if c.loadInstallsStored then { st with session := some f } else st
 
 /-! ### wave 6: what `reconstruct_instance → bptk._set_state` does with the decoded session
 
